@@ -458,9 +458,22 @@ public:
 
         // Copy handler into std::function BEFORE forwarding into Record.
         // std::forward<F> may move from handler, so the copy must happen first.
-        std::function<void()> storedFn(handler);
-        _periodicTimers.emplace(id, PeriodicTimer{id, interval, deadline, false, std::move(storedFn)});
-        _records.emplace(id, Record{deadline, Handler{std::forward<F>(handler)}, false});
+        // Every firing runs through a cancellation token shared with the PeriodicTimer
+        // entry: a firing that was already collected by the timer thread when cancel()
+        // returns true must not start its handler afterwards.
+        auto cancelToken = std::make_shared<std::atomic<bool>>(false);
+        std::function<void()> userFn(handler);
+        std::function<void()> storedFn(
+          [cancelToken, userFn = std::move(userFn)]()
+          {
+            if (!cancelToken->load(std::memory_order_acquire))
+            {
+              userFn();
+            }
+          });
+        _records.emplace(id, Record{deadline, Handler{storedFn}, false});
+        _periodicTimers.emplace(
+          id, PeriodicTimer{id, interval, deadline, false, std::move(storedFn), std::move(cancelToken)});
         _heap.emplace_back(HeapItem{deadline, id});
         siftUp(_heap.size() - 1);
 
@@ -510,6 +523,11 @@ public:
       auto periodicIt = _periodicTimers.find(id);
       if (periodicIt != _periodicTimers.end())
       {
+        if (periodicIt->second.cancelToken)
+        {
+          periodicIt->second.cancelToken->store(true, std::memory_order_release);
+        }
+
         if (!periodicIt->second.canceled)
         {
           periodicIt->second.canceled = true;
@@ -932,6 +950,7 @@ private:
     TimePoint nextExecution;
     bool canceled{false};
     std::function<void()> handler; ///< Copyable handler for rescheduling
+    std::shared_ptr<std::atomic<bool>> cancelToken; ///< Set by cancel(); checked by every firing before it starts
   };
 
   static bool less(const HeapItem &a, const HeapItem &b)
